@@ -221,6 +221,9 @@ func (w *Wallet) ImportAccount(name string, accountPubKey *hdkeychain.ExtendedKe
 		)
 		return err
 	})
+	if err != nil {
+		w.forgetImportedAccount(accountProps)
+	}
 	return accountProps, err
 }
 
@@ -245,7 +248,26 @@ func (w *Wallet) ImportAccountWithScope(name string,
 		)
 		return err
 	})
+	if err != nil {
+		w.forgetImportedAccount(accountProps)
+	}
 	return accountProps, err
+}
+
+// forgetImportedAccount drops the cached state of an account whose creation
+// was rolled back. Reading the account's properties within the transaction
+// that creates it caches it in the scoped manager; if the transaction then
+// fails to commit, the next account that is given the same number would be
+// served from that stale entry.
+func (w *Wallet) forgetImportedAccount(props *waddrmgr.AccountProperties) {
+	if props == nil {
+		return
+	}
+	manager, err := w.Manager.FetchScopedKeyManager(props.KeyScope)
+	if err != nil {
+		return
+	}
+	manager.InvalidateAccountCache(props.AccountNumber)
 }
 
 // importAccount is the internal implementation of ImportAccount -- one should
